@@ -267,6 +267,20 @@ func c07Cases(ctx *lib.Ctx) []c07Case {
 		cases = append(cases, c07Case{"arguments/" + ac.name + "/plain", c07Wrap("args", atom)},
 			c07Case{"arguments/" + ac.name + "/negated-in-nested", c07Wrap("args", lib.PC1("ex.k | ex.l^", lib.CNested(lib.NotE{Item: atom})))})
 	}
+	// message templates: placeholders repeated, many, over names that differ only in where `.` and `-` stand, over
+	// built-in and undeclared prefixes, next to format verbs; control and non-printable characters in the text
+	for i, msg := range []string{
+		"{{ex.leaf}} and again {{ex.leaf}}", "{{ex.leaf}}{{ex.leaf}}{{ex.leaf}}", "{{ex.a-b}} {{ex.a_b}} {{ex.a.b}}", "{{core-name.x}} {{core.name-x}}", "{{ex.leaf}} {{ ex.leaf }} {{  ex.leaf}}",
+		"{{ex.p0}} {{ex.p1}} {{ex.p2}} {{ex.p3}} {{ex.p4}} {{ex.p5}} {{ex.p6}} {{ex.p7}} {{ex.p8}} {{ex.p9}} {{ex.p10}} {{ex.p11}}", "{{core.name}} {{shapes.name}} {{raml-shapes.name}} {{apiContract.name}}",
+		"100% {{ex.leaf}} %d %s %v %%", "{{ex.leaf}}%{{ex.arg}}", "{{}} {{ex}} {{ex.}} {{.leaf}} {{ex.leaf", "\x1b[31mred {{ex.leaf}}\x1b[0m", "bell \a vt \v del \x7f one \x01", "tag \U000E0001 bom \ufeff sep \u2028 {{ex.leaf}}",
+	} {
+		p := c07Wrap(fmt.Sprintf("message %d", i), lib.PC1("ex.arg", lib.CScalar("maxCount", lib.Int(0))))
+		p.Validations[0].Message = msg
+		cases = append(cases, c07Case{fmt.Sprintf("messages/%d", i), p})
+		q := c07Wrap(fmt.Sprintf("message nested %d", i), lib.PC1("ex.k | ex.l^", lib.CNested(lib.PC1("ex.arg", lib.CScalar("maxCount", lib.Int(0))))))
+		q.Validations[0].Message = msg
+		cases = append(cases, c07Case{fmt.Sprintf("messages/nested-%d", i), q})
+	}
 	// profile names that sanitise to the same package name
 	for _, nm := range []string{"my profile", "my-profile", "MY_PROFILE", "my.profile", "my/profile/1.0", "1", "profile", "ünïcode name", "a  b", "-", "report", "data", "input", "violation"} {
 		p := c07Wrap("x", leaf)
@@ -279,7 +293,7 @@ func c07Cases(ctx *lib.Ctx) []c07Case {
 // C07: every well-formed declarative profile compiles (and the compiled policy can be evaluated).
 func c07(tier string) {
 	ctx := lib.NewCtx("C07", tier)
-	ctx.Rule = "complete pairwise matrix: every documented constraint kind (all atoms, nested, atLeast, atMost, combinations in one mapping) x 16 path-shape classes x {plain, under not} x {top level, inside nested, inside atLeast over an alternative path, inside or/and}; negation directly above every connective and pairs of connectives; scaling sweeps (1..N quantified constraints flat / inside nested / two levels, nesting depth 1..6 (quick) / 1..8 (thorough) x width 1..3, 1..N validations over three levels, and/or width 2..6 x depth 1..3, profile names sanitising to the same package); distributions of validations over the three levels (a validation under two or three levels, levels listing only already-listed validations, empty / missing levels, duplicates); every fourth profile is compiled right after a profile the translator must reject; plus seeded random formula families; every profile must compile AND evaluate on a small graph; " +
+	ctx.Rule = "complete pairwise matrix: every documented constraint kind (all atoms, nested, atLeast, atMost, combinations in one mapping) x 16 path-shape classes x {plain, under not} x {top level, inside nested, inside atLeast over an alternative path, inside or/and}; negation directly above every connective and pairs of connectives; scaling sweeps (1..N quantified constraints flat / inside nested / two levels, nesting depth 1..6 (quick) / 1..8 (thorough) x width 1..3, 1..N validations over three levels, and/or width 2..6 x depth 1..3, profile names sanitising to the same package); message templates (repeated / many / colliding / built-in-prefix placeholders, format verbs, control characters); distributions of validations over the three levels (a validation under two or three levels, levels listing only already-listed validations, empty / missing levels, duplicates); every fourth profile is compiled right after a profile the translator must reject; plus seeded random formula families; every profile must compile AND evaluate on a small graph; " +
 		"non-trivial & distinct = distinct profile text"
 	ctx.Assumptions = []string{"no embedded Rego; only documented constraints; names over [A-Za-z0-9-]; branch cross-products bounded (<= 6^3 leaves per validation)", "nesting depth bounded at 6 / 8: deeper profiles do compile (depth 10 was compiled by hand) but OPA needs ~3.5x longer per level, minutes at depth 10 - a cost, not a rejection"}
 	nRandom := ctx.N(100, 3000)
